@@ -498,6 +498,35 @@ def step (s : Store) : Op → Store
 /-- the storage after a history of writer operations, starting from `NewChainStorage()` -/
 def run (ops : List Op) : Store := ops.foldl step none
 
+/-! ## The reader entry point: `Synchronizer.PreConfirmedChain`
+
+```go
+height, _ := s.blockchain.Height()
+snapshot := s.preConfirmed.SnapshotForBlock(height + 1)
+if snapshot.Length() > 0 { return snapshot, nil }
+head, _ := s.blockchain.HeadsHeader()
+emptyPreConfirmed, _ := MakeEmptyPreConfirmedForParent(s.blockchain, head)
+return preconfirmed.NewChain(&emptyPreConfirmed)
+```
+
+The state a reader runs against has three components: the canonical height, the chain storage,
+and the header the Synchronizer caches (`highestBlockHeader`: moved forward by `storeTask`, never
+lowered by a revert, overwritten once a minute with the feeder's latest header, which may be ahead
+of the local head). The alignment argument of `SnapshotForBlock` is part of the transcription: it
+is `height + 1`; the cached header is an argument that is NOT used. -/
+
+/-- `MakeEmptyPreConfirmedForParent(bc, head)`: block `head+1`, blank identifier, no transactions;
+its state diff (the block-hash write of block `head+1-10`) is the parameter `d` -/
+def emptyPreConfirmedFor (head : Nat) (d : Diff) : PreConf :=
+  { number := head + 1, ident := blankIdent, txCount := 0, eventCount := 0, txs := [], receipts := [],
+    txDiffs := [], diff := d }
+
+/-- `Synchronizer.PreConfirmedChain()` in a state (canonical height, cached header number, storage) -/
+def readerView (height : Nat) (_cachedHeader : Option Nat) (s : Store) (fallbackDiff : Diff) : Reader :=
+  let snapshot := snapshotFor s (height + 1)
+  if snapshot.length > 0 then snapshot
+  else { nodes := [emptyPreConfirmedFor height fallbackDiff], length := 1 }
+
 /-! ## Lookups on a view -/
 
 /-- `ChainReader.TransactionByHash` (none = `ErrTransactionNotFound`) -/
